@@ -34,13 +34,24 @@ META = {
             "finite space: for every devdb sequence a model string synthesised from its regex chain (x software "
             "version shapes), for every vendor's canonical hardware: the real parse_hw_model / HardwareView.vendor / "
             "get_rulebook are run; Coq recomputes true sequences and vendor from the observed regex hits (agree) and "
-            "evaluates P_C18 on the real outputs (holds).",
+            "evaluates P_C18_full on the real outputs (holds) = P_C18 and the clause chain_ok: a database entry is "
+            "reported true EXACTLY when its whole regex chain is found in the model string (C18_chain_exact proves this "
+            "of the model for every database with db_ok, every regex semantics and every string; C18_chain_unique: the "
+            "clause determines the reported entries).  Input families beyond one model per key: cross-branch strings "
+            "and, for every pair of sibling families whose regexes can be found in one string (CE6865/CE6865E, "
+            "CS4100/CS4132U, EI/CE ...), such a string (hierarchy and chain clauses only: these strings may stand for "
+            "no device).  Determinism of loading is observed across real work: between the loads of a model the "
+            "runner builds patches for that hardware in the same process (api._diff_and_patch, api.patch_from_pre, "
+            "Orderer.ref_insert/order_config on shipped before/after samples of the vendor, with a non-empty "
+            "RefTracker as a generator run with references fills it) and loads the rulebook again through the public "
+            "get_rulebook and through a brand new provider; all digests must be equal.",
     "technique": "Coq induction over the insertion-built regex tree (finite-map view of nested dicts), Permutation "
                  "lemmas for the vendor choice, vm_compute on the regenerated table; exhaustive differential run",
     "note": "PARTIAL. Proved: hierarchy and vendor choice (static part of P_C18).  Tested only (Python runtime "
             "facts, cannot be theorems here): Mako rendering of *.rul/*.order/*.deploy, importlib resolution of "
             "%logic/%diff_logic/%apply_logic names, compilation of row regexes, structural equality of rulebooks from "
-            "fresh providers - checked by running the real get_rulebook for all synthesised models (exhaustive over "
+            "fresh providers and of the rulebook loaded before/after patch operations with references in the same "
+            "process - checked by running the real get_rulebook for all synthesised models (exhaustive over "
             "devdb sequences, not over all strings).  Regex semantics itself is abstract in the theorems (they hold "
             "for every `hit`), and observed per model in the run.",
 }
@@ -291,6 +302,28 @@ def gen_cases(ctx):
         for m in models:
             n_cross += 1
             add(m, "", "cross")
+    # sibling families are not exclusive (CE6865 / CE6865E, B4com CS4100 / CS4132U, the flags EI/HI/SI next to
+    # CE/Quidway/NE ...): for EVERY pair of children of one node a model string in which the parent chain and
+    # both children's regexes are found, if there is one.  Such a string may stand for no device (two vendor
+    # families at once), so only the clauses proved for every string are claimed for it: hierarchy and chain_ok
+    # (both siblings are true).  These cases are parsed only (no rulebook load).
+    n_pairs = n_sib = 0
+    for par, ks in kids_of.items():
+        ch = chain_of(par) if par else []
+        if ch is None:
+            continue
+        for i, a in enumerate(ks):
+            for b in ks[i + 1:]:
+                n_pairs += 1
+                try:
+                    models = synth_models(ch + [rx_of[a], rx_of[b]], 1)
+                except (re.error, core.CheckFailure):
+                    models = []
+                for m in models:
+                    if (m, "") not in seen:
+                        n_sib += 1
+                        add(m, "", "sibling", None)
+                        cases[-1]["pair"] = [".".join(a), ".".join(b)]
     for v, m in CANONICAL_DESIGN.items():
         for s in softs[:2]:
             add(m, s, "canonical")
@@ -308,6 +341,7 @@ def gen_cases(ctx):
         "cases_canonical": sum(c["src"] == "canonical" for c in cases),
         "cases_cross_branch": sum(c["src"] == "cross" for c in cases),
         "cases_uncovered": sum(c["src"] == "uncovered" for c in cases),
+        "sibling_pairs": n_pairs, "cases_sibling_pairs_matching_together": n_sib,
         "registration_permutations": len(perms),
         "sequences_without_synthesised_model": unsynth,
     }
@@ -322,6 +356,16 @@ def signature(case: dict, r: dict, parts: dict) -> tuple[str, str]:
     if not parts["hier"]:
         return (f"C18/hierarchy-broken/{(case.get('seq') or case['model']).split('.')[0]}",
                 f"true sequences of {case['model']!r} are not prefix-closed")
+    if not parts.get("chain", True):
+        fam = case.get("seq") or "+".join(case.get("pair") or []) or case["model"]
+        want = case.get("seq")
+        if want and want.split(".") not in r["true"]:
+            what = (f"family {want} is not reported true for {case['model']!r} although every regex of its chain is found "
+                    f"in the model string (true sequences reported: {len(r['true'])})")
+        else:
+            what = (f"the families reported true for {case['model']!r} are not exactly the database entries whose regex "
+                    f"chain is found in it (regex ids found: {r['hits']}; reported: {['.'.join(x) for x in r['true']][:12]})")
+        return (f"C18/true-families-not-exact/{fam.split('.')[0].split('+')[0].split()[0] if fam.strip() else '-'}", what)
     if not parts["vendor"]:
         outs = [r["vendor"]] + r["perm"]
         names = sorted({o.get("name") or ("None" if "none" in o else "exc:" + o["exc"].split(":")[0]) for o in outs})
@@ -339,6 +383,12 @@ def signature(case: dict, r: dict, parts: dict) -> tuple[str, str]:
                 f"get_rulebook(HardwareView({case['model']!r}, {case['soft']!r})) raises {rb['exc']}")
     if not (rb["logic_ok"] and rb["regex_ok"] and rb["loaded"]):
         return (f"C18/rulebook-unresolved/{vname}", f"rulebook of {case['model']!r} has unresolved parts: {rb['stats']}")
+    d = rb["digests"]
+    if len(d) >= 5 and len(set(d[:3])) == 1 and len(set(d)) > 1:
+        return (f"C18/rulebook-changed-by-patch-operations/{vname}",
+                f"get_rulebook(HardwareView({case['model']!r}, {case['soft']!r})) after building patches with a non-empty "
+                f"RefTracker for that hardware in the same process ({rb.get('ops')}) differs structurally from the rulebook "
+                f"loaded before them / from a fresh compilation")
     return (f"C18/rulebook-nondeterministic/{vname}",
             f"two loads of the rulebook for {case['model']!r} differ structurally")
 
@@ -388,10 +438,28 @@ def evaluate(cases, results, tables, tag="cases"):
         ref = by_model[c["model"]]
         extra = ref["rb"]["digests"][:1] if ref is not r else []
         terms.append(case_term(r, extra))
-    preds = {"agree": "agree_C18", "holds": "holds_C18", "hier": "part_hier", "vendor": "part_vendor",
-             "runtime": "part_runtime", "tables": "fun _ => tables_ok"}
-    res = core.run_case_files(ID, TY, IMPORTS, preds, terms, per_file=60, tag=tag, extra_defs=defs)
-    return {k: set(v) for k, v in res.items()}
+    preds = {"agree": "agree_C18", "holds": "holds_C18_full", "tables": "fun _ => tables_ok"}
+    # strings that stand for no device (sibling pairs; parsed only): the clauses stated for EVERY string
+    preds_static = dict(preds, holds="fun c => part_hier c && part_chain c")
+    parts = {"hier": "part_hier", "vendor": "part_vendor", "runtime": "part_runtime", "chain": "part_chain"}
+    res = {k: set() for k in list(preds) + list(parts)}
+    groups = [([i for i, c in enumerate(cases) if c["src"] != "sibling"], preds, tag),
+              ([i for i, c in enumerate(cases) if c["src"] == "sibling"], preds_static, tag + "_static")]
+    for idx, pr, tg in groups:
+        if not idx:
+            continue
+        per_file = max(10, -(-len(idx) // core.NPROC))           # one file per core
+        r = core.run_case_files(ID, TY, IMPORTS, pr, [terms[i] for i in idx], per_file=per_file, tag=tg, extra_defs=defs)
+        for k, v in r.items():
+            res[k] |= {idx[j] for j in v}
+    # which clause fails is asked only about the cases where holds is false (second pass, usually tiny)
+    failing = sorted(res["holds"])
+    if failing:
+        r2 = core.run_case_files(ID, TY, IMPORTS, parts, [terms[i] for i in failing],
+                                 per_file=max(10, -(-len(failing) // core.NPROC)), tag=tag + "_parts", extra_defs=defs)
+        for k, v in r2.items():
+            res[k] = {failing[j] for j in v}
+    return res
 
 
 def run(ctx):
@@ -407,6 +475,8 @@ def run(ctx):
 
 
 def _run_once(ctx, last: bool) -> bool:
+    import time
+    t_start = time.time()
     rep = core.proof_stage(ctx, THEOREM_FILE)
     if not rep.compiled:
         # the model files contain no proofs: keep them available so that the run below can
@@ -414,8 +484,16 @@ def _run_once(ctx, last: bool) -> bool:
         p = core.make(["Spec/P_C18.vo", "Proofs/HwDbTables.vo"])
         if p.returncode != 0:
             raise core.CheckFailure("C18 model files do not compile:\n" + (p.stdout + p.stderr)[-2000:])
+    import time
+    t_0 = time.time()
     cases, perms, entries, vendors, unsynth = gen_cases(ctx)
-    results, tables = run_runner([{"model": c["model"], "soft": c["soft"]} for c in cases], perms)
+    t_1 = time.time()
+    # patch operations between the loads: once per model string (its first software-version shape)
+    first_soft = {}
+    for c in cases:
+        first_soft.setdefault(c["model"], c["soft"])
+    results, tables = run_runner([{"model": c["model"], "soft": c["soft"], "static": c["src"] == "sibling",
+                                   "ops": first_soft[c["model"]] == c["soft"]} for c in cases], perms)
 
     # canonical hardware of every registered vendor (vendor.hardware), as the registry reports it
     known_models = {c["model"] for c in cases}
@@ -427,7 +505,10 @@ def _run_once(ctx, last: bool) -> bool:
         cases += extra
         results += r2
 
+    t_2 = time.time()
     res = evaluate(cases, results, tables)
+    ctx.coverage["phase_seconds"] = {"proof_stage": round(t_0 - t_start, 1), "generate": round(t_1 - t_0, 1),
+                                     "real_code_runs": round(t_2 - t_1, 1), "coq_evaluation": round(time.time() - t_2, 1)}
     if res["tables"]:
         if not last:
             return False
@@ -442,7 +523,14 @@ def _run_once(ctx, last: bool) -> bool:
     # otherwise the enumeration is not what it claims (fail closed)
     missed = [c for c, r in zip(cases, results)
               if c["src"] == "devdb" and r["true"] is not None and c["seq"].split(".") not in r["true"]]
-    if (missed or unsynth) and not res["holds"]:
+    static_src = ("cross", "sibling")
+
+    def claimed(i):
+        """a failing case counts unless it is a string that stands for no database key and fails only clauses
+        that are not claimed for every string (vendor choice, runtime)"""
+        return not (cases[i]["src"] in static_src and i not in res["hier"] and i not in res["chain"])
+    bad = [i for i in sorted(res["holds"]) if claimed(i)]
+    if (missed or unsynth) and not bad:
         ctx.add_violation(core.Violation(
             signature="C18/model-synthesis-incomplete",
             what=f"no model string synthesised for {unsynth + [c['seq'] for c in missed][:5]}",
@@ -484,23 +572,25 @@ def _run_once(ctx, last: bool) -> bool:
         "vendor_histogram": vend_hist,
         "max_depth_histogram": {str(k): v for k, v in sorted(depth_hist.items())},
         "covered_cases": len(covered),
+        "loads_separated_by_patch_operations": sum(1 for r in results if (r["rb"].get("ops") or {}).get("jobs")),
+        "patch_operations_between_loads": {k: sum((r["rb"].get("ops") or {}).get(k, 0) for r in results)
+                                           for k in ("jobs", "patched", "raised", "refs")},
         "level_note": META["note"],
     })
     sigs_seen = set()
-    for i in sorted(res["holds"]):
-        parts = {"hier": i not in res["hier"], "vendor": i not in res["vendor"], "runtime": i not in res["runtime"]}
-        if cases[i]["src"] == "cross" and parts["hier"]:
-            # a cross-branch string stands for no database key: it is outside the property's quantifier except for
-            # the hierarchy clause, which C18_prefix_closed states for EVERY model string (such strings can belong
-            # to two vendor families at once, e.g. 'Cisco ... Nexus' with an XR hit)
-            continue
+    for i in bad:
+        parts = {"hier": i not in res["hier"], "vendor": i not in res["vendor"], "runtime": i not in res["runtime"],
+                 "chain": i not in res["chain"]}
+        # (a cross-branch / sibling-pair string stands for no database key: it is outside the property's quantifier
+        # except for the hierarchy and chain clauses, which C18_prefix_closed / C18_chain_exact state for EVERY model
+        # string; such strings can belong to two vendor families at once, e.g. 'Cisco ... Nexus' with an XR hit)
         sig, what = signature(cases[i], results[i], parts)
         if sig in sigs_seen:
             continue
         sigs_seen.add(sig)
         ctx.add_violation(core.Violation(signature=sig, what=what, replay={"case": cases[i], "perms": perms,
                                                                          "impl": results[i], "parts": parts}))
-    if not res["holds"]:
+    if not bad:
         for i in sorted(res["agree"])[:1]:
             ctx.add_violation(core.Violation(
                 signature="C18/model-impl-disagree",
@@ -521,7 +611,10 @@ def _run_once(ctx, last: bool) -> bool:
         "regex search is abstract in the theorems (Section variable hit); per observed model the hits are taken from "
         "the real compiled patterns",
         "Registry.match is modelled as called by hw_to_vendor (default=None) on the default registry (no entry-point vendors)",
-        "runtime part (Mako, importlib, re.compile, equality of two loads) is tested exhaustively over devdb sequences, not proved",
+        "the patch operations between two loads use the shipped before/after samples of the vendor (tests/annet/test_patch) "
+        "and one generic config; the RefTracker is built as run_partial_generators builds it (two generator classes, one "
+        "referring to the other, their configs = halves of the new config)",
+        "runtime part (Mako, importlib, re.compile, equality of loads) is tested exhaustively over devdb sequences, not proved",
     ]
     return True
 
@@ -529,7 +622,8 @@ def _run_once(ctx, last: bool) -> bool:
 def replay(ctx, doc):
     rp = doc["replay"]
     c = rp["case"]
-    results, tables = run_runner([{"model": c["model"], "soft": c["soft"]}], rp.get("perms", ["reverse"]))
+    results, tables = run_runner([{"model": c["model"], "soft": c["soft"], "static": c.get("src") == "sibling"}],
+                                 rp.get("perms", ["reverse"]))
     res = evaluate([c], results, tables, tag="replay")
     print("impl:", json.dumps(results[0])[:1500])
     print("holds:", 0 not in res["holds"], "agree:", 0 not in res["agree"])
